@@ -20,11 +20,65 @@ def s_options(tier):
     return dict(max_steps=300, max_paths=128, pattern_limit=8, solver_timeout_ms=10000, skeleton_budget_s=30)
 
 
+def cross_check(xdir, limit, seed):
+    """Second opinion on a sample of the z3 queries of this run: cvc5 and the system z3 4.8.12 on the SMT-LIB2 dumps.
+    A disagreement (sat vs unsat) is a machinery failure (exit 2), never a pass and never a violation."""
+    import random
+    import subprocess
+    from concurrent.futures import ThreadPoolExecutor
+    files = sorted(f for f in os.listdir(xdir) if f.endswith(".smt2"))
+    random.Random(seed).shuffle(files)
+    files = files[:limit]
+    solvers = [("cvc5", ["cvc5", "--lang", "smt2", "--tlimit=10000"]), ("z3-4.8.12", ["/usr/bin/z3", "-T:10"])]
+
+    def one(fn):
+        path = os.path.join(xdir, fn)
+        exp = open(path).readline().split(":")[-1].strip()
+        out = {}
+        for name, cmd in solvers:
+            try:
+                p = subprocess.run(cmd + [path], capture_output=True, text=True, timeout=20)
+                text = p.stdout.strip().split("\n")
+                if any("(error" in l for l in text) or not text:
+                    out[name] = "error"
+                else:
+                    out[name] = text[0].strip()
+            except Exception:
+                out[name] = "timeout"
+        return fn, exp, out
+
+    res = {"queries_sampled": len(files), "solvers": [n for n, _ in solvers], "agree": 0, "disagree": 0, "no_second_verdict": 0, "disagreements": []}
+    with ThreadPoolExecutor(8) as ex:
+        for fn, exp, out in ex.map(one, files):
+            verdicts = [v for v in out.values() if v in ("sat", "unsat")]
+            if not verdicts:
+                res["no_second_verdict"] += 1
+            elif all(v == exp for v in verdicts):
+                res["agree"] += 1
+            else:
+                res["disagree"] += 1
+                res["disagreements"].append({"file": fn, "z3": exp, "others": out})
+    return res
+
+
 def run_s(rep, items, tier, kinds=None, wall_budget_s=None):
     """Run skeletons through nlsym; confirmed candidates become violations (key = skeleton name + kind)."""
+    import shutil
+    import tempfile
     from .nlsym import run
     deadline = time.time() + wall_budget_s if wall_budget_s else None
-    results, agg, info = run.run_families(items, s_options(tier), deadline=deadline)
+    xdir = tempfile.mkdtemp(prefix="nlv-xcheck-")
+    os.environ["NLV_XCHECK_DIR"] = xdir
+    from .nlsym import core
+    core.XCHECK_DIR = xdir
+    try:
+        results, agg, info = run.run_families(items, s_options(tier), deadline=deadline)
+        xc = cross_check(xdir, 60 if tier == "quick" else 400, rep.seed)
+    finally:
+        shutil.rmtree(xdir, ignore_errors=True)
+        os.environ.pop("NLV_XCHECK_DIR", None)
+    if xc["disagree"]:
+        rep.unreproduced("second-solver cross-check disagrees with z3 on %d sampled queries: %r" % (xc["disagree"], xc["disagreements"][:2]))
     replayed = 0
     samples = []
     for r in results:
@@ -75,6 +129,7 @@ def run_s(rep, items, tier, kinds=None, wall_budget_s=None):
         "path_witnesses_run_on_the_real_interpreter": agg.get("witnesses"),
         "heap_ledger_audits": agg.get("ledger_audits"),
         "solver_queries": agg.get("queries"),
+        "second_solver_cross_check": xc,
         "solver_s": round(agg.get("solver_s", 0.0), 1),
         "skeletons_truncated_by_budget": agg.get("truncated"),
         "skeletons_rejected_by_parser": agg.get("parse_errors", 0),
